@@ -92,6 +92,94 @@ fn c11_value_order_replay() {
         subvalues(v, &mut vals, 3);
     }
     let mut fails: Vec<String> = Vec::new();
+    // C10: parts obtained by sub-value extraction (shared buffers, arbitrary bit offsets, foreign bits around them) are as
+    // good as any other parts: a product / sum built from them yields them back
+    let extracted: Vec<Value> = vals[built.len()..].iter().filter(|v| v.ty().bit_width() > 0).take(400).cloned().collect();
+    let partners = [Value::u1(0), Value::u2(0), Value::u2(3), Value::u4(0), Value::u4(0xf), Value::u8(0), Value::u8(0xff)];
+    for sv in &extracted {
+        for w in &partners {
+            for (l, r) in [(sv, w), (w, sv)] {
+                let p = Value::product(l.clone(), r.clone());
+                match p.as_product() {
+                    Some((x, y)) if &x.to_value() == l && &y.to_value() == r => {}
+                    Some((x, y)) => fails.push(format!("product({} : {}, {} : {}) has parts ({}, {})", l, l.ty(), r, r.ty(), x.to_value(), y.to_value())),
+                    None => fails.push(format!("product({}, {}) is not a product", l, r)),
+                }
+            }
+        }
+        if fails.len() >= 8 {
+            break;
+        }
+    }
+    // C10: constructors / accessors are inverse, both encodings decode back to the value and have the advertised lengths,
+    // pruning to the value's own type is the identity, pruning twice equals pruning once
+    for v in vals.iter().take(1500) {
+        let ty = Arc::new(v.ty().clone());
+        let padded: Vec<bool> = v.iter_padded().collect();
+        if padded.len() != ty.bit_width() {
+            fails.push(format!("{} : {} has {} padded bits, the type is {} bits wide", v, ty, padded.len(), ty.bit_width()));
+        }
+        let mut it = BitIter::from(crate::bit_encoding::BitCollector::collect_bits(padded.iter().copied()).0.into_iter());
+        match Value::from_padded_bits(&mut it, &ty) {
+            Ok(d) if &d == v && d.ty() == v.ty() && it.n_total_read() == padded.len() => {}
+            other => fails.push(format!("{} : {} decoded from its own padded bits gives {:?} after {} bits", v, ty, other.map(|x| x.to_string()).ok(), it.n_total_read())),
+        }
+        let compact: Vec<bool> = v.iter_compact().collect();
+        let mut it = BitIter::from(crate::bit_encoding::BitCollector::collect_bits(compact.iter().copied()).0.into_iter());
+        match Value::from_compact_bits(&mut it, &ty) {
+            Ok(d) if &d == v && d.ty() == v.ty() && it.n_total_read() == compact.len() => {}
+            other => fails.push(format!("{} : {} decoded from its own compact bits gives {:?} after {} bits", v, ty, other.map(|x| x.to_string()).ok(), it.n_total_read())),
+        }
+        match v.prune(&ty) {
+            Some(p) if &p == v => {}
+            other => fails.push(format!("{} : {} pruned to its own type gives {:?}", v, ty, other.map(|x| x.to_string()))),
+        }
+        if let Some((a, b)) = v.as_product() {
+            let (a, b) = (a.to_value(), b.to_value());
+            let back = Value::product(a.clone(), b.clone());
+            if &back != v || back.ty() != v.ty() {
+                fails.push(format!("product of the parts of {} gives {}", v, back));
+            }
+            match back.as_product() {
+                Some((x, y)) if x.to_value() == a && y.to_value() == b => {}
+                _ => fails.push(format!("the parts of product({}, {}) are not ({}, {})", a, b, a, b)),
+            }
+            // prune the left part to unit: the right part must survive unchanged
+            if let Some((_, rt)) = ty.as_product() {
+                let target = Final::product(Final::unit(), Arc::clone(rt));
+                match v.prune(&target) {
+                    Some(p) => match p.as_product() {
+                        Some((_, y)) if y.to_value() == b => {
+                            if p.prune(&target).as_ref() != Some(&p) {
+                                fails.push(format!("pruning {} to {} twice differs from pruning once", v, target));
+                            }
+                        }
+                        _ => fails.push(format!("{} pruned to {} lost its right part {}", v, target, b)),
+                    },
+                    None => fails.push(format!("{} cannot be pruned to {}", v, target)),
+                }
+            }
+        }
+        if let Some(l) = v.as_left() {
+            if let Some((_, rt)) = ty.as_sum() {
+                let back = Value::left(l.to_value(), Arc::clone(rt));
+                if &back != v {
+                    fails.push(format!("left of the content of {} gives {}", v, back));
+                }
+            }
+        }
+        if let Some(r) = v.as_right() {
+            if let Some((lt, _)) = ty.as_sum() {
+                let back = Value::right(Arc::clone(lt), r.to_value());
+                if &back != v {
+                    fails.push(format!("right of the content of {} gives {}", v, back));
+                }
+            }
+        }
+        if fails.len() >= 8 {
+            break;
+        }
+    }
     'outer: for a in &vals {
         for b in &vals {
             let same = a.ty() == b.ty() && bits(a) == bits(b);
